@@ -33,8 +33,8 @@ TRUSTED = ["external laws (hypotheses of C01_pipeline): FlatBuffers / npz / TFRe
 
 INTS = ["int8", "int16", "int32", "int64", "uint8", "uint16", "uint32", "uint64"]
 FLOATS = ["float16", "float32", "float64"]
-FB_DTYPES = ["bool"] + INTS + FLOATS
-NPZ_DTYPES = FB_DTYPES + ["bytes", "str"]
+FB_DTYPES = ["bool"] + INTS + FLOATS + [">i4", ">f8", ">u2", "<i2"]      # a declared dtype may carry an explicit byte order
+NPZ_DTYPES = ["bool"] + INTS + FLOATS + ["bytes", "str"]
 WRITER = {"fb": "ShardWriterFlatBuffer", "npz": "ShardWriterNP", "tfrec": "ShardWriterTFRec"}
 READERS = ["sync", "concurrent", "async", "rust", "tf"]
 
@@ -210,6 +210,12 @@ def _read_all(ds, reader: str, T: int):
     raise ValueError(reader)
 
 
+def _norm(d: str) -> str:
+    """the native-byte-order name of a declared dtype (">i4" -> "int32"); bytes / str unchanged"""
+    import numpy as np
+    return d if d in ("bytes", "str") else ("bool" if np.dtype(d).kind == "b" else np.dtype(d).newbyteorder("=").name)
+
+
 def run_case(case):
     """One dataset: generate, write, read through every reader, compare.  Returns a result record."""
     import random
@@ -217,10 +223,11 @@ def run_case(case):
     from sedpack.io import Dataset, Attribute
     rng = random.Random(case["seed"])
     fmt, comp = case["fmt"], case["comp"]
-    attrs = [Attribute(name=n, dtype=d, shape=tuple(s)) for n, d, s in case["attrs"]]
+    attrs = [Attribute(name=n, dtype=d, shape=tuple(s)) for n, d, s in case["attrs"]]     # as declared (may carry an explicit byte order)
+    case = dict(case, declared=case["attrs"], attrs=[[n, _norm(d), s] for n, d, s in case["attrs"]])   # everything below works on native names
     root = Path(case["root"])
     shutil.rmtree(root, ignore_errors=True)
-    res = {"case": {k: case[k] for k in case if k != "root"}, "mismatches": [], "rejected": [], "reader_errors": [], "presentations": collections.Counter(),
+    res = {"case": dict({k: case[k] for k in case if k not in ("root", "declared")}, attrs=case["declared"]), "mismatches": [], "rejected": [], "reader_errors": [], "presentations": collections.Counter(),
            "patterns": collections.Counter(), "elements": 0, "fb_vectors": None, "expected": None, "written": 0}
     try:
         ds = sp.mk(root, fmt=fmt, comp=comp, eps=case["eps"], attrs=attrs)
@@ -444,7 +451,7 @@ def run_case(case):
                     k = np.dtype(d).itemsize
                     # what decode_array makes of exactly these bytes (the real reader-side function)
                     from sedpack.io.flatbuffer.iterate import IterateShardFlatBuffer
-                    dec = IterateShardFlatBuffer.decode_array(np.frombuffer(raw, dtype=np.uint8), Attribute(name=n, dtype=d, shape=tuple(s)))
+                    dec = IterateShardFlatBuffer.decode_array(np.frombuffer(raw, dtype=np.uint8), next(a for a in attrs if a.name == n))
                     _, _, dflat = _canon_numeric(dec, None)
                     items.append({"attr": n, "dtype": d, "k": k, "shape": list(s), "nested": _nested(tuple(s), lambda idx: e[3][idx]),
                                   "bytes": list(raw), "decoded": [[list(idx), dflat[idx]] for idx in _indices(tuple(s))]})
